@@ -105,13 +105,6 @@ def _optimize_operator_call_attr(  # pylint: disable=too-many-return-statements
                 return ast.Compare(arg2, [ast.In()], [arg1])
             return node
 
-        if fn.attr == "delitem":
-            target, index = node.args
-            assert len(node.args) == 2
-            return ast.Delete(
-                targets=[ast.Subscript(value=target, slice=index, ctx=ast.Del())]
-            )
-
         if fn.attr == "getitem":
             target, index = node.args
             assert len(node.args) == 2
